@@ -78,6 +78,37 @@ let () =
          | Some ps -> Some ("P " ^ String.concat "|" (List.map string_of_path ps)))
       | _ -> failwith "RS")
 
+(* ---- metadata model
+   MI kur ucs2 ucs4                     start an index (ids of unicode-range, ucs2, ucs4)
+   MT name k v k v ...                  add a table (features sorted by key,value) in index order
+   MQ k v k v ...                       query (sorted by key): prints "Q <name or -> | names..."
+   MG key | k v line k v line ...       get_info                                              *)
+let m_ids = ref (N0, N0, N0)
+let m_index : (n * (n * n) list) list ref = ref []
+let rec pairs = function a :: b :: r -> (n_of_int a, n_of_int b) :: pairs r | _ -> []
+let rec triples = function a :: b :: c :: r -> ((n_of_int a, n_of_int b), z_of_int c) :: triples r | _ -> []
+let () =
+  reg "MI" (fun ws -> (match ints ws with [ a; b; c ] -> m_ids := (n_of_int a, n_of_int b, n_of_int c) | _ -> failwith "MI");
+             m_index := []; None);
+  reg "MT" (fun ws -> (match ints ws with n :: r -> m_index := !m_index @ [ (n_of_int n, pairs r) ] | _ -> failwith "MT"); None);
+  reg "MQ" (fun ws ->
+      let (a, b, c) = !m_ids in
+      let q = pairs (ints ws) in
+      let one = find_table a b c !m_index q in
+      let all = find_tables a b c !m_index q in
+      Some ("Q " ^ (match one with None -> "-" | Some n -> string_of_int (int_of_n n)) ^ " |"
+            ^ String.concat "" (List.map (fun n -> " " ^ string_of_int (int_of_n n)) all)));
+  reg "MS" (fun ws ->
+      let (a, b, c) = !m_ids in
+      match split_bar ws with
+      | [ q; t ] -> Some (string_of_int (int_of_z (score a b c (pairs (ints q)) (pairs (ints t)))))
+      | _ -> failwith "MS");
+  reg "MG" (fun ws ->
+      match split_bar ws with
+      | [ [ k ]; l ] -> Some ("G " ^ (match get_info (triples (ints l)) (n_of_int (int_of_string k)) with
+          | None -> "-" | Some v -> string_of_int (int_of_n v)))
+      | _ -> failwith "MG")
+
 (* ---- log model: LR S <l> ; R <k> ; E <lvl> <c...> ; ... *)
 let () =
   reg "LR" (fun ws ->
